@@ -110,6 +110,25 @@ def gen(rng, tier):
                 r = expected(needs, defs, strs, strs, versym, i, has_needs, has_defs)
                 exp.append([shift_ranges(x, base) for x in r])
             _truth[line] = ("file", exp)
+            if k % 6 == 0:
+                # a kind occurring twice: which section is used is fixed by the scan (the last one seen before all three
+                # kinds are present); decided by the model (no python reference for these)
+                e2 = elfgen.Elf(cl, little)
+                si2 = e2.add(b".verstr", elfgen.SHT["STRTAB"], strs)
+                n2, d2 = model_versions(rng, False)
+                vn2, vd2, strs2 = elfgen.build_versions(little, n2, d2, False, rng)
+                sj2 = e2.add(b".verstr2", elfgen.SHT["STRTAB"], strs2)
+                ad2 = [lambda: e2.add(b".gnu.version", elfgen.SHT["GNU_VERSYM"], vs, entsize=2, align=2),
+                       lambda: e2.add(b".gnu.version_r", elfgen.SHT["GNU_VERNEED"], vn, link=si2, info=len(needs), align=4),
+                       lambda: e2.add(b".gnu.version_d", elfgen.SHT["GNU_VERDEF"], vd, link=si2, info=len(defs), align=4),
+                       rng.choice([lambda: e2.add(b".gnu.version_r2", elfgen.SHT["GNU_VERNEED"], vn2, link=sj2, info=len(n2), align=4),
+                                   lambda: e2.add(b".gnu.version_d2", elfgen.SHT["GNU_VERDEF"], vd2, link=sj2, info=len(d2), align=4),
+                                   lambda: e2.add(b".gnu.version2", elfgen.SHT["GNU_VERSYM"], vs[::-1], entsize=2, align=2)])]
+                rng.shuffle(ad2)
+                for ad in ad2:
+                    ad()
+                dd, _m = e2.build(rng)
+                cases.append("bytes any %s | symver %s" % (hx(dd), " ".join(str(i) for i in idxs)))
         cases.append(line)
     return cases
 
